@@ -38,6 +38,18 @@ struct World<S: Service> {
     sub_labels: std::collections::HashSet<usize>,
     /// `override_sample_preallocation` of every publisher of this world (10th token of `new`)
     prealloc: Option<usize>,
+    // C04 (generator word `death`): further nodes that open the same service, node death and cleanup by a survivor
+    config: iceoryx2::config::Config,
+    name: ServiceName,
+    /// nodes 1.. (node 0 = `node` / `service` above): node handle, service handle
+    extra: std::collections::BTreeMap<usize, (Option<Node<S>>, Option<iceoryx2::service::port_factory::publish_subscribe::PortFactory<S, u64, ()>>)>,
+    extra_dirs: Vec<String>,
+    /// nodes that live in a process of their own (`spawn k`): a real crash (SIGKILL) can hit them
+    children: std::collections::BTreeMap<usize, ChildProc>,
+    dead: std::collections::HashSet<usize>,
+    /// which node created the port (absent: node 0)
+    pub_node: HashMap<usize, usize>,
+    sub_node: HashMap<usize, usize>,
 }
 
 struct SliceWorld<S: Service> {
@@ -161,6 +173,10 @@ fn mk<S: Service>(t: &[&str]) -> Result<World<S>, String> {
     // own domain: nothing is shared with other iceoryx2 users of this machine (test suites, other checks)
     let prefix = format!("vf{}c{}_", std::process::id(), k);
     config.global.prefix = iceoryx2_bb_system_types::file_name::FileName::new(prefix.as_bytes()).unwrap();
+    // dead nodes are cleaned up by the explicit `cleanup` call only (no difference without dead nodes)
+    config.global.node.cleanup_dead_nodes_on_creation = false;
+    config.global.node.cleanup_dead_nodes_on_destruction = false;
+    config.global.service.cleanup_dead_nodes_on_open = false;
     let node = NodeBuilder::new().config(&config).create::<S>().map_err(|e| format!("err:node:{e:?}"))?;
     let name = ServiceName::new(&format!("verif/pubsub/{}/{k}", std::process::id())).unwrap();
     let service = node
@@ -175,7 +191,8 @@ fn mk<S: Service>(t: &[&str]) -> Result<World<S>, String> {
         .create()
         .map_err(|e| format!("err:service:{e:?}"))?;
     let node_dir = format!("{}", node.id().value());
-    Ok(World { node: Some(node), service: Some(service), prefix, node_dir, pubs: HashMap::new(), subs: HashMap::new(), loans: HashMap::new(), samples: HashMap::new(), pub_ids: HashMap::new(), max_borrow: n(t[6]).max(1), pub_labels: Default::default(), sub_labels: Default::default(), prealloc: t.get(9).map(|x| n(x)) })
+    Ok(World { node: Some(node), service: Some(service), prefix, node_dir, pubs: HashMap::new(), subs: HashMap::new(), loans: HashMap::new(), samples: HashMap::new(), pub_ids: HashMap::new(), max_borrow: n(t[6]).max(1), pub_labels: Default::default(), sub_labels: Default::default(), prealloc: t.get(9).map(|x| n(x)),
+        config, name, extra: Default::default(), extra_dirs: vec![], children: Default::default(), dead: Default::default(), pub_node: HashMap::new(), sub_node: HashMap::new() })
 }
 
 fn mk_slice<S: Service>(t: &[&str]) -> Result<SliceWorld<S>, String> {
@@ -310,18 +327,204 @@ fn fb_read<S: Service>(s: &Sample<S, Fb, ()>) -> Option<(u64, u64, &[u8])> {
     Some((po, ne, s.payload_bytes()))
 }
 
+/// a node in a process of its own: the same binary (`seqdiff pubsub gen child`, parameters in VERIF_PS_CHILD) executes the
+/// calls on its ports that the parent forwards, one line per call, one reply line `result \t oracle messages \t new publisher id`
+struct ChildProc {
+    child: std::process::Child,
+    stdin: Option<std::process::ChildStdin>,
+    stdout: std::io::BufReader<std::process::ChildStdout>,
+}
+impl ChildProc {
+    fn tell(&mut self, line: &str) {
+        use std::io::Write;
+        if let Some(i) = self.stdin.as_mut() { let _ = writeln!(i, "{line}"); let _ = i.flush(); }
+    }
+    fn ask(&mut self, line: &str) -> (String, Option<u128>) {
+        use std::io::BufRead;
+        self.tell(line);
+        let mut r = String::new();
+        if self.stdout.read_line(&mut r).unwrap_or(0) == 0 { return ("child-died".into(), None); }
+        let f: Vec<&str> = r.trim_end_matches('\n').split('\t').collect();
+        if f.len() > 1 { for m in f[1].split(';').filter(|m| !m.is_empty()) { oracle_fail(m.to_string()); } }
+        (f[0].to_string(), f.get(2).and_then(|x| x.parse().ok()))
+    }
+}
+impl Drop for ChildProc {
+    fn drop(&mut self) {
+        // orderly end: the child drops its objects and exits when its input ends
+        self.stdin.take();
+        let _ = self.child.wait();
+    }
+}
+
+fn child_config(prefix: &str, expired: usize) -> iceoryx2::config::Config {
+    let mut config = iceoryx2::config::Config::global_config().clone();
+    config.defaults.publish_subscribe.subscriber_expired_connection_buffer = expired;
+    config.global.prefix = iceoryx2_bb_system_types::file_name::FileName::new(prefix.as_bytes()).unwrap();
+    config.global.node.cleanup_dead_nodes_on_creation = false;
+    config.global.node.cleanup_dead_nodes_on_destruction = false;
+    config.global.service.cleanup_dead_nodes_on_open = false;
+    config
+}
+
+/// `seqdiff pubsub gen child`: node of its own in this process, driven by the parent harness over stdin / stdout
+fn child_main() -> ! {
+    use std::io::{BufRead, Write};
+    type S = ipc::Service;
+    let env = std::env::var("VERIF_PS_CHILD").unwrap_or_default();
+    let f: Vec<&str> = env.split('|').collect();
+    let (prefix, name, expired, max_borrow) = (f[0].to_string(), f[1], n(f[2]), n(f[3]));
+    let out = std::io::stdout();
+    let config = child_config(&prefix, expired);
+    let name = ServiceName::new(name).unwrap();
+    let made = (|| -> Result<World<S>, String> {
+        let node = NodeBuilder::new().config(&config).create::<S>().map_err(|e| format!("err:node:{e:?}"))?;
+        let service = node.service_builder(&name).publish_subscribe::<u64>().open().map_err(|e| format!("err:open:{e:?}"))?;
+        let node_dir = format!("{}", node.id().value());
+        Ok(World { node: Some(node), service: Some(service), prefix: prefix.clone(), node_dir, pubs: HashMap::new(), subs: HashMap::new(), loans: HashMap::new(), samples: HashMap::new(), pub_ids: HashMap::new(), max_borrow, pub_labels: Default::default(), sub_labels: Default::default(), prealloc: None,
+            config: config.clone(), name: name.clone(), extra: Default::default(), extra_dirs: vec![], children: Default::default(), dead: Default::default(), pub_node: HashMap::new(), sub_node: HashMap::new() })
+    })();
+    let mut w = match made {
+        Ok(w) => { writeln!(out.lock(), "ready {}", w.node_dir).unwrap(); w }
+        Err(e) => { writeln!(out.lock(), "{e}").unwrap(); std::process::exit(0) }
+    };
+    out.lock().flush().unwrap();
+    let stdin = std::io::stdin();
+    for l in stdin.lock().lines() {
+        let Ok(l) = l else { break };
+        let toks: Vec<&str> = l.split(' ').filter(|t| !t.is_empty()).collect();
+        if toks.is_empty() { continue; }
+        if toks[0] == "#pubid" { w.pub_ids.insert(toks[1].parse().unwrap(), n(toks[2])); continue; }
+        let before: Vec<u128> = w.pub_ids.keys().cloned().collect();
+        let r = std::panic::catch_unwind(std::panic::AssertUnwindSafe(|| exec(&mut w, &toks)));
+        let res = match r { Ok(s) => s, Err(_) => "PANIC".to_string() };
+        let newid = w.pub_ids.keys().find(|k| !before.contains(k)).map(|k| k.to_string()).unwrap_or_default();
+        let o = take_oracle().join(";");
+        let mut lock = out.lock();
+        writeln!(lock, "{res}\t{o}\t{newid}").unwrap();
+        lock.flush().unwrap();
+    }
+    drop(w);
+    std::process::exit(0)
+}
+
+/// `@k` as last token: the call goes through node k's service handle (default: node 0)
+fn node_index(t: &[&str]) -> usize {
+    match t.last() { Some(x) if x.starts_with('@') => n(&x[1..]), _ => 0 }
+}
+
 fn exec<S: Service>(w: &mut World<S>, t: &[&str]) -> String {
+    use iceoryx2_bb_elementary_traits::testing::abandonable::Abandonable;
+    // calls on the ports of a node that lives in a child process are executed there
+    if !w.children.is_empty() || !w.dead.is_empty() {
+        let owner = match t[0] {
+            "cpub" | "csub" => Some(node_index(t)),
+            "dpub" | "loan" | "send" | "dloan" | "probe" => Some(w.pub_node.get(&n(t[1])).cloned().unwrap_or(0)),
+            "dsub" | "recv" | "dsample" | "has" => Some(w.sub_node.get(&n(t[1])).cloned().unwrap_or(0)),
+            "upd" => Some(if t[1] == "p" { w.pub_node.get(&n(t[2])).cloned().unwrap_or(0) } else { w.sub_node.get(&n(t[2])).cloned().unwrap_or(0) }),
+            _ => None,
+        };
+        if let Some(k) = owner && w.children.contains_key(&k) {
+            if t[0] == "cpub" && w.pub_labels.contains(&n(t[1])) { return "dup".into(); }
+            if t[0] == "csub" && w.sub_labels.contains(&n(t[1])) { return "dup".into(); }
+            let line: Vec<&str> = t.iter().cloned().filter(|x| !x.starts_with('@')).collect();
+            let (res, newid) = w.children.get_mut(&k).unwrap().ask(&line.join(" "));
+            if t[0] == "cpub" && res == "ok" {
+                w.pub_labels.insert(n(t[1])); w.pub_node.insert(n(t[1]), k);
+                if let Some(id) = newid {
+                    w.pub_ids.insert(id, n(t[1]));
+                    let msg = format!("#pubid {id} {}", t[1]);
+                    for (j, c) in w.children.iter_mut() { if *j != k { c.tell(&msg); } }
+                }
+            }
+            if t[0] == "csub" && res == "ok" { w.sub_labels.insert(n(t[1])); w.sub_node.insert(n(t[1]), k); }
+            return res;
+        }
+        if let Some(k) = owner && k != 0 && w.dead.contains(&k) && !w.extra.contains_key(&k) {
+            // the node died: its ports are out of reach
+            return if t[0] == "cpub" || t[0] == "csub" { "no-service".into() } else { "none".into() };
+        }
+    }
     let r = match t[0] {
+        "spawn" => {
+            // spawn <k>: a further node in a process of its own opens the service (ipc)
+            let k = n(t[1]);
+            if k == 0 || w.extra.contains_key(&k) || w.children.contains_key(&k) || w.dead.contains(&k) { return "dup".into(); }
+            let expired = w.config.defaults.publish_subscribe.subscriber_expired_connection_buffer;
+            let mut child = match std::process::Command::new(std::env::current_exe().unwrap()).args(["pubsub", "gen", "child"])
+                .env("VERIF_PS_CHILD", format!("{}|{}|{}|{}", w.prefix, w.name, expired, w.max_borrow))
+                .stdin(std::process::Stdio::piped()).stdout(std::process::Stdio::piped()).spawn() { Ok(c) => c, Err(e) => return format!("err:spawn:{e}") };
+            let mut cp = ChildProc { stdin: child.stdin.take(), stdout: std::io::BufReader::new(child.stdout.take().unwrap()), child };
+            let mut first = String::new();
+            { use std::io::BufRead; let _ = cp.stdout.read_line(&mut first); }
+            let first = first.trim().to_string();
+            if let Some(dir) = first.strip_prefix("ready ") {
+                w.extra_dirs.push(dir.to_string());
+                for (id, l) in w.pub_ids.iter() { cp.tell(&format!("#pubid {id} {l}")); }
+                w.children.insert(k, cp);
+                "ok".into()
+            } else if first.is_empty() { "child-died".into() } else { first }
+        }
+        "kill" if w.children.contains_key(&n(t[1])) => {
+            // the process is killed between two calls
+            let k = n(t[1]);
+            let mut cp = w.children.remove(&k).unwrap();
+            let _ = cp.child.kill();
+            let _ = cp.child.wait();
+            w.dead.insert(k);
+            "ok".into()
+        }
+        "open" => {
+            // open <k>: a further node opens the service
+            let k = n(t[1]);
+            if k == 0 || w.extra.contains_key(&k) || w.dead.contains(&k) { return "dup".into(); }
+            let node = match NodeBuilder::new().config(&w.config).create::<S>() { Ok(v) => v, Err(e) => return format!("err:node:{e:?}") };
+            match node.service_builder(&w.name).publish_subscribe::<u64>().open() {
+                Ok(svc) => { w.extra_dirs.push(format!("{}", node.id().value())); w.extra.insert(k, (Some(node), Some(svc))); "ok".into() }
+                Err(e) => format!("err:open:{e:?}"),
+            }
+        }
+        "kill" => {
+            // kill <k>: the process of node k dies between two calls: nothing of it is dropped (order of the conformance tests:
+            // node, service, publishers, subscribers; loans and samples are never heard of again)
+            let k = n(t[1]);
+            if w.dead.contains(&k) { return "dead".into(); }
+            let (node, svc) = if k == 0 { (w.node.take(), w.service.take()) } else { match w.extra.remove(&k) { Some(x) => x, None => return "no-node".into() } };
+            w.dead.insert(k);
+            if let Some(x) = node { x.abandon(); }
+            if let Some(x) = svc { x.abandon(); }
+            let of = |m: &HashMap<usize, usize>, l: usize| m.get(&l).cloned().unwrap_or(0);
+            let ps: Vec<usize> = w.pubs.keys().cloned().filter(|p| of(&w.pub_node, *p) == k).collect();
+            let ss: Vec<usize> = w.subs.keys().cloned().filter(|s| of(&w.sub_node, *s) == k).collect();
+            for p in &ps { w.pubs.remove(p).unwrap().abandon(); }
+            for s in &ss { w.subs.remove(s).unwrap().abandon(); }
+            let lk: Vec<(usize, usize)> = w.loans.keys().cloned().filter(|(p, _)| of(&w.pub_node, *p) == k).collect();
+            for x in lk { std::mem::forget(w.loans.remove(&x).unwrap()); }
+            let sk: Vec<usize> = w.samples.keys().cloned().filter(|s| of(&w.sub_node, *s) == k).collect();
+            for x in sk { for y in w.samples.remove(&x).unwrap() { std::mem::forget(y); } }
+            "ok".into()
+        }
+        "cleanup" => {
+            // cleanup <k>: node k removes the stale resources of all dead nodes
+            let k = n(t[1]);
+            let node = if k == 0 { w.node.as_ref() } else { w.extra.get(&k).and_then(|x| x.0.as_ref()) };
+            match node { Some(x) => { let r = x.try_cleanup_dead_nodes(); format!("c={},f={}", r.cleanups, r.failed_cleanups) } None => "none".into() }
+        }
         "cpub" => {
-            // cpub <p> <max_loans>
+            // cpub <p> <max_loans> [@k]
+            let k = node_index(t);
             if w.pub_labels.contains(&n(t[1])) { "dup".to_string() } else {
-            if w.service.is_none() { return "no-service".to_string(); }
-            let mut b = w.service.as_ref().unwrap().publisher_builder().max_loaned_samples(n(t[2])).backpressure_strategy(BackpressureStrategy::DiscardData);
+            let svc = if k == 0 { w.service.as_ref() } else { w.extra.get(&k).and_then(|x| x.1.as_ref()) };
+            if svc.is_none() { return "no-service".to_string(); }
+            if k != 0 { w.pub_node.insert(n(t[1]), k); }
+            let mut b = svc.unwrap().publisher_builder().max_loaned_samples(n(t[2])).backpressure_strategy(BackpressureStrategy::DiscardData);
             if let Some(k) = w.prealloc { b = b.override_sample_preallocation(move |_| k); }
             match b.create() {
                 Ok(p) => {
                     w.pub_ids.insert(p.id().value(), n(t[1]));
                     w.pub_labels.insert(n(t[1]));
+                    let msg = format!("#pubid {} {}", p.id().value(), t[1]);
+                    for c in w.children.values_mut() { c.tell(&msg); }
                     w.pubs.insert(n(t[1]), p);
                     "ok".to_string()
                 }
@@ -331,10 +534,13 @@ fn exec<S: Service>(w: &mut World<S>, t: &[&str]) -> String {
         }
         "dpub" => match w.pubs.remove(&n(t[1])) { Some(p) => { drop(p); "ok".into() } None => "none".into() },
         "csub" => {
-            // csub <s> <buffer size or -> <history request or ->
+            // csub <s> <buffer size or -> <history request or -> [@k]
+            let k = node_index(t);
             if w.sub_labels.contains(&n(t[1])) { "dup".to_string() } else {
-            if w.service.is_none() { return "no-service".to_string(); }
-            let mut b = w.service.as_ref().unwrap().subscriber_builder();
+            let svc = if k == 0 { w.service.as_ref() } else { w.extra.get(&k).and_then(|x| x.1.as_ref()) };
+            if svc.is_none() { return "no-service".to_string(); }
+            if k != 0 { w.sub_node.insert(n(t[1]), k); }
+            let mut b = svc.unwrap().subscriber_builder();
             if t[2] != "-" { b = b.buffer_size(n(t[2])); }
             if t[3] != "-" { b = b.history_request(n(t[3])); }
             match b.create() {
@@ -372,9 +578,11 @@ fn exec<S: Service>(w: &mut World<S>, t: &[&str]) -> String {
             None => "none".into(),
         },
         // C17: the node handle / the service handle are dropped while everything else lives on
+        "dnode" if t.len() > 1 && n(t[1]) != 0 => match w.extra.get_mut(&n(t[1])).and_then(|x| x.0.take()) { Some(x) => { drop(x); "ok".into() } None => "none".into() },
+        "dsvc" if t.len() > 1 && n(t[1]) != 0 => match w.extra.get_mut(&n(t[1])).and_then(|x| x.1.take()) { Some(x) => { drop(x); "ok".into() } None => "none".into() },
         "dnode" => match w.node.take() { Some(n) => { drop(n); "ok".into() } None => "none".into() },
         "dsvc" => match w.service.take() { Some(n) => { drop(n); "ok".into() } None => "none".into() },
-        "ls" => list_resources(&w.prefix, &w.node_dir),
+        "ls" => list_resources_multi(&w.prefix, &w.node_dir, &w.extra_dirs),
         "dloan" => match w.loans.remove(&(n(t[1]), n(t[2]))) { Some(s) => { drop(s); "ok".into() } None => "none".into() },
         "recv" => match w.subs.get(&n(t[1])) {
             Some(s) => match s.receive() {
@@ -706,6 +914,10 @@ fn exec_fb<S: Service + 'static>(w: &mut FbWorld<S>, t: &[&str]) -> String {
 
 /// what exists of this case in the file system / shared memory namespace, by kind (ipc variant)
 fn list_resources(prefix: &str, node_dir: &str) -> String {
+    list_resources_multi(prefix, node_dir, &[])
+}
+
+fn list_resources_multi(prefix: &str, node_dir: &str, more: &[String]) -> String {
     let mut counts: std::collections::BTreeMap<String, usize> = Default::default();
     let mut scan = |dir: &str| {
         if let Ok(rd) = std::fs::read_dir(dir) {
@@ -721,10 +933,12 @@ fn list_resources(prefix: &str, node_dir: &str) -> String {
     scan("/dev/shm");
     scan("/tmp/iceoryx2/nodes");
     scan("/tmp/iceoryx2/services");
-    scan(&format!("/tmp/iceoryx2/nodes/{node_dir}"));
-    if std::path::Path::new(&format!("/tmp/iceoryx2/nodes/{node_dir}")).exists() {
-        counts.insert("nodedir".into(), 1);
+    let mut dirs = 0;
+    for d in std::iter::once(node_dir).chain(more.iter().map(|x| x.as_str())) {
+        scan(&format!("/tmp/iceoryx2/nodes/{d}"));
+        if std::path::Path::new(&format!("/tmp/iceoryx2/nodes/{d}")).exists() { dirs += 1; }
     }
+    if dirs > 0 { counts.insert("nodedir".into(), dirs); }
     counts.remove("global_mgmt"); // the domain-wide management segment persists by design
     let v: Vec<String> = counts.iter().map(|(k, c)| format!("{k}={c}")).collect();
     if v.is_empty() { "-".into() } else { v.join(",") }
@@ -773,6 +987,8 @@ impl PubSubComp {
 }
 
 pub fn generate(a: &Args) -> Vec<Vec<String>> {
+    if a.rest.iter().any(|x| x == "child") { child_main(); }
+    if a.rest.iter().any(|x| x == "death") { return death_cases(a); }
     let mut rng = Rng::new(a.seed);
     let mut cases = vec![];
     let variant = a.rest.iter().find(|x| *x == "ipc").map(|_| "ipc").unwrap_or("local");
@@ -952,6 +1168,128 @@ pub fn generate(a: &Args) -> Vec<Vec<String>> {
             };
             lines.push(l);
         }
+        cases.push(lines);
+    }
+    cases
+}
+
+/// C04, API-call level: node A (node 1, a process of its own) and node B (node 0, this process) share the service, traffic in
+/// both directions (held samples, unsent loans, history, full buffers); A is killed between two calls; sometimes B goes on
+/// for a few calls while A's remains are still there; B (or a third node C opened for the purpose) runs the dead-node
+/// cleanup; B continues: traffic, new ports that take the freed registry slots, `probe` of every publisher of B (a leaked
+/// chunk shows as a probe that ends early), `ls` (nothing of A may be left).
+/// Shapes: random; "dead subscriber with two or more live publishers"; "dead publisher with two or more live subscribers
+/// holding its samples".
+fn death_cases(a: &Args) -> Vec<Vec<String>> {
+    let mut rng = Rng::new(a.seed ^ 0xdea7);
+    let mut cases = vec![];
+    for _ in 0..a.cases {
+        let shape = match rng.below(10) { 0 | 1 => 1, 2 | 3 => 2, _ => 0 };
+        let (mp, ms) = (rng.range(2, 4), rng.range(2, 4));
+        let b = rng.range(1, 3);
+        let h = rng.range(0, 2);
+        let r = rng.range(1, 3);
+        let ov = if h > b { 1 } else { rng.below(2) };
+        let e = rng.range(1, 3);
+        let mut lines = vec![format!("new ipc {mp} {ms} {b} {h} {r} {ov} {e}"), "spawn 1".to_string()];
+        let mut third = false;
+        if rng.chance(25) { lines.push("open 2".into()); third = true; }
+        struct St { tag: u64, next_loan: usize, np: usize, ns: usize,
+                    pubs: Vec<(usize, usize)>, subs: Vec<(usize, usize)>, loans: Vec<(usize, usize)>, held: HashMap<usize, usize>, sub_was_dead: Vec<usize>, owner: HashMap<usize, usize>, sub_owner: HashMap<usize, usize> }
+        let mut st = St { tag: 0, next_loan: 0, np: 0, ns: 0, pubs: vec![], subs: vec![], loans: vec![], held: HashMap::new(), sub_was_dead: vec![], owner: HashMap::new(), sub_owner: HashMap::new() };
+        fn cpub(st: &mut St, rng: &mut Rng, lines: &mut Vec<String>, k: usize) { let p = st.np; st.np += 1; st.pubs.push((p, k)); st.owner.insert(p, k); lines.push(format!("cpub {p} {}{}", rng.range(1, 3), if k == 0 { String::new() } else { format!(" @{k}") })); }
+        fn csub(st: &mut St, rng: &mut Rng, lines: &mut Vec<String>, k: usize) { let s = st.ns; st.ns += 1; st.subs.push((s, k)); st.sub_owner.insert(s, k); st.held.insert(s, 0); let _ = rng; lines.push(format!("csub {s} - -{}", if k == 0 { String::new() } else { format!(" @{k}") })); }
+        fn send(st: &mut St, lines: &mut Vec<String>, p: usize) { let l = st.next_loan; st.next_loan += 1; st.tag += 1; lines.push(format!("loan {p} {l}")); lines.push(format!("send {p} {l} {}", st.tag)); }
+        // traffic among the ports of the nodes in `who`
+        fn traffic(st: &mut St, rng: &mut Rng, lines: &mut Vec<String>, who: &[usize], steps: u64, create: bool) {
+            for _ in 0..steps {
+                let pubs: Vec<usize> = st.pubs.iter().filter(|x| who.contains(&x.1)).map(|x| x.0).collect();
+                let subs: Vec<usize> = st.subs.iter().filter(|x| who.contains(&x.1)).map(|x| x.0).collect();
+                let k = *rng.pick(who);
+                match rng.below(100) {
+                    0..=5 if create => cpub(st, rng, lines, k),
+                    6..=11 if create => csub(st, rng, lines, k),
+                    12..=13 if !pubs.is_empty() => { let p = *rng.pick(&pubs); st.pubs.retain(|x| x.0 != p); lines.push(format!("dpub {p}")); }
+                    14..=15 if !subs.is_empty() => { let s = *rng.pick(&subs); st.subs.retain(|x| x.0 != s); lines.push(format!("dsub {s}")); }
+                    16..=50 if !pubs.is_empty() => { let p = *rng.pick(&pubs); send(st, lines, p); }
+                    51..=56 if !pubs.is_empty() => { let p = *rng.pick(&pubs); let l = st.next_loan; st.next_loan += 1; st.loans.push((p, l)); lines.push(format!("loan {p} {l}")); }
+                    57..=60 => {
+                        let mine: Vec<(usize, usize)> = st.loans.iter().cloned().filter(|x| pubs.contains(&x.0)).collect();
+                        if mine.is_empty() { continue }
+                        let (p, l) = *rng.pick(&mine); st.loans.retain(|x| *x != (p, l));
+                        if rng.chance(50) { st.tag += 1; lines.push(format!("send {p} {l} {}", st.tag)); } else { lines.push(format!("dloan {p} {l}")); }
+                    }
+                    61..=82 if !subs.is_empty() => { let s = *rng.pick(&subs); *st.held.get_mut(&s).unwrap() += 1; lines.push(format!("recv {s}")); }
+                    83..=90 if !subs.is_empty() => { let s = *rng.pick(&subs); let n = *st.held.get(&s).unwrap(); lines.push(format!("dsample {s} {}", rng.below(n as u64 + 1))); }
+                    91..=93 => { if rng.chance(50) && !pubs.is_empty() { lines.push(format!("upd p {}", rng.pick(&pubs))); } else if !subs.is_empty() { lines.push(format!("upd s {}", rng.pick(&subs))); } }
+                    94..=96 if !pubs.is_empty() => lines.push(format!("probe {}", rng.pick(&pubs))),
+                    97..=99 if !subs.is_empty() => lines.push(format!("has {}", rng.pick(&subs))),
+                    _ => {}
+                }
+            }
+        }
+        match shape {
+            1 => {
+                // dead subscriber with two or more live publishers: it holds samples of each and has more queued
+                let npub = rng.range(2, mp);
+                for _ in 0..npub { cpub(&mut st, &mut rng, &mut lines, 0); }
+                csub(&mut st, &mut rng, &mut lines, 1);
+                if rng.chance(50) { csub(&mut st, &mut rng, &mut lines, 0); }
+                let s = st.subs[0].0;
+                for _ in 0..rng.range(1, 3) { let ps: Vec<usize> = st.pubs.iter().map(|x| x.0).collect(); for p in ps { send(&mut st, &mut lines, p); } }
+                for _ in 0..rng.range(0, 3) { *st.held.get_mut(&s).unwrap() += 1; lines.push(format!("recv {s}")); }
+                { let steps = rng.range(0, 8); traffic(&mut st, &mut rng, &mut lines, &[0, 1], steps, false); }
+            }
+            2 => {
+                // dead publisher with two or more live subscribers that hold its samples (and have more queued); an unsent loan
+                let nsub = rng.range(2, ms);
+                for _ in 0..nsub { csub(&mut st, &mut rng, &mut lines, 0); }
+                cpub(&mut st, &mut rng, &mut lines, 1);
+                if rng.chance(50) { cpub(&mut st, &mut rng, &mut lines, 0); }
+                let p = st.pubs[0].0;
+                for _ in 0..rng.range(1, 4) { send(&mut st, &mut lines, p); }
+                let ss: Vec<usize> = st.subs.iter().map(|x| x.0).collect();
+                for s in ss { if rng.chance(80) { *st.held.get_mut(&s).unwrap() += 1; lines.push(format!("recv {s}")); } }
+                if rng.chance(50) { let l = st.next_loan; st.next_loan += 1; lines.push(format!("loan {p} {l}")); }
+                { let steps = rng.range(0, 8); traffic(&mut st, &mut rng, &mut lines, &[0, 1], steps, false); }
+            }
+            _ => {
+                // both nodes get ports, then traffic in both directions
+                for k in [0usize, 1] { if rng.chance(85) { cpub(&mut st, &mut rng, &mut lines, k); } if rng.chance(85) { csub(&mut st, &mut rng, &mut lines, k); } }
+                let steps = rng.range(5, a.len.max(6));
+                traffic(&mut st, &mut rng, &mut lines, &[0, 1], steps, true);
+            }
+        }
+        if rng.chance(30) { lines.push("ls".into()); }
+        lines.push("kill 1".into());
+        st.loans.retain(|x| st.owner.get(&x.0).cloned().unwrap_or(0) != 1);
+        // B goes on while A's remains are still there
+        if rng.chance(50) { let steps = rng.range(1, 8); traffic(&mut st, &mut rng, &mut lines, &[0], steps, true); }
+        if rng.chance(10) { lines.push("ls".into()); }
+        if !third && rng.chance(25) { lines.push("open 2".into()); third = true; }
+        lines.push(format!("cleanup {}", if third && rng.chance(70) { 2 } else { 0 }));
+        lines.push("ls".into());
+        st.sub_was_dead = (0..st.ns).filter(|s| st.sub_owner.get(s).cloned().unwrap_or(0) == 1).collect();
+        st.pubs.retain(|x| x.1 != 1); st.subs.retain(|x| x.1 != 1);
+        // B continues: every publisher is probed for leaked chunks, new ports take the freed slots
+        let ps: Vec<usize> = st.pubs.iter().map(|x| x.0).collect();
+        for p in &ps { if rng.chance(60) { lines.push(format!("upd p {p}")); } lines.push(format!("probe {p}")); }
+        let who: Vec<usize> = if third { vec![0, 2] } else { vec![0] };
+        for _ in 0..rng.range(0, 2) { let k = *rng.pick(&who); cpub(&mut st, &mut rng, &mut lines, k); }
+        for _ in 0..rng.range(0, 2) { let k = *rng.pick(&who); csub(&mut st, &mut rng, &mut lines, k); }
+        let steps = rng.range(3, (a.len / 2).max(4));
+        traffic(&mut st, &mut rng, &mut lines, &who, steps, true);
+        let ps: Vec<usize> = st.pubs.iter().map(|x| x.0).collect();
+        for p in &ps { lines.push(format!("probe {p}")); }
+        lines.push("ls".into());
+        // the survivors shut down in an orderly way (samples, loans, ports, then service and node handles): nothing at all may be left
+        let mut hs: Vec<(usize, usize)> = st.held.iter().map(|(a, b)| (*a, *b)).collect(); hs.sort();
+        for (s, c) in hs { if st.sub_was_dead.contains(&s) { continue } for _ in 0..c { lines.push(format!("dsample {s} 0")); } }
+        for (p, l) in st.loans.clone() { lines.push(format!("dloan {p} {l}")); }
+        for (s, _) in st.subs.clone() { lines.push(format!("dsub {s}")); }
+        for (p, _) in st.pubs.clone() { lines.push(format!("dpub {p}")); }
+        for k in who.iter().rev() { lines.push(format!("dsvc {k}")); lines.push(format!("dnode {k}")); }
+        lines.push("ls".into());
         cases.push(lines);
     }
     cases
